@@ -62,6 +62,7 @@ def odd_trees(rng):
 
 
 def run(rec, cfg):
+    rec.accept = {"can", "apply"}
     MR.CHECKS.update({"apply"})
     MR.attach_apply()
     MR.attach_can()
